@@ -8,22 +8,23 @@
 From Coq Require Import Permutation.
 From DepsDev Require Import Lib.Base Gen.PypiEnvTables Pypi.PyStr Pypi.Dependency Pypi.Dependency_proofs
   Pypi.Split_proofs Pypi.Total_proofs Resolve.Markers Resolve.Markers_proofs Resolve.Markers_spec_proofs
-  Spec.Pep508Spec Spec.Pep508Domain.
+  Spec.Pep508Spec Spec.Pep508Domain Spec.Pep508Domain_proofs.
 
 (* ------------------------------------------------------------------ regenerated tables *)
 (* The model's operator numbers carry the spellings of markerop_string.go, the spec's
-   operators are those, the Go constant names have the numbers Eval's switch assumes, the
-   by-length order is the one the proofs were made for, every spec variable is a key of
+   operators are those, the Go constant names have the numbers Eval's switch assumes, every entry of
+   the table parseMarkerOp walks is a fixed-spelling operator given to accept() under its own String()
+   (the adequacy of the ORDER is proved, not pinned: C16_marker_roundtrip), every spec variable is a key of
    environmentVariables bound to the platform value of the same name, and the delimiter
    and white-space sets of ParseDependency are the modelled ones. *)
 Theorem C16_tables :
   (forall o, op_string (cop_num o) = cop_text o []) /\
   map snd marker_op_names = [0; 1; 2; 3; 4; 5; 6; 7; 8; 9; 10]%N /\
-  marker_ops_by_length = [8; 1; 3; 4; 5; 7; 9; 2; 6]%N /\
+  forallb (fun p => existsb (N.eqb (fst p)) fixed_ops && bytes_eqb (snd p) (op_string (fst p))) marker_op_trial = true /\
   forallb (fun kv => bytes_eqb (fst kv) (fst (snd kv))) marker_env_vars = true /\
   dep_whitespace = [32; 9]%N /\ dep_name_delims = [32;9;91;40;59;60;61;33;126;62]%N.
 Proof.
-  exact (conj cop_text_ok (conj (proj1 op_names_ok) (conj ops_by_length_ok
+  exact (conj cop_text_ok (conj (proj1 op_names_ok) (conj op_trial_ok
           (conj (proj1 (proj2 env_vars_keys_ok)) dep_tables_ok)))).
 Qed.
 Print Assumptions C16_tables.
@@ -166,6 +167,13 @@ Theorem C16_marker_partial :
                (Pep508Spec.eval target_env spec_sat extras m).
 Proof. exact marker_agrees. Qed.
 Print Assumptions C16_marker_partial.
+
+(* the class number the direct oracle attaches to a disagreement (extracted domain_class: the n of
+   the known finding F-C16-n of the first atom outside) is 0 exactly on that domain *)
+Theorem C16_domain_class : forall valid spec_sat extras m,
+  in_domain target_env valid spec_sat extras m = (domain_class target_env valid spec_sat extras m =? 0)%N.
+Proof. exact (in_domain_class target_env). Qed.
+Print Assumptions C16_domain_class.
 
 (* the domain contains ordinary markers and the theorem is not vacuous on them *)
 Example C16_domain_nonvacuous :
